@@ -618,6 +618,17 @@ CORPUS_PROGRAMS = [
     ("[std.trace('t' + i, i) for i in std.range(1, 5)] + [error 'boom ' + std.toString({ a: 1 })]", {}),
     ("std.sort(std.makeArray(300, function(i) (i * 7919) % 1000))[:5]", {"heavy": 1}),
     ("std.length(std.makeArray(1500, function(i) { a: i, b: [self.a] })) + std.length([{ x: i } for i in std.range(1, 1200)])", {"heavy": 1}),
+    # cycles through every kind of heap edge, partly unforced (what is never forced keeps its environment alive)
+    ("local o = { [k]: [k, o] for k in ['a', 'b'] }; o.a[0]", {}),
+    ("local o = { local l = o, [k]: [l, k] for k in ['a', 'b', 'c'] }; std.length(o)", {}),
+    ("local o = { [k]: { up: o, me: k } for k in ['a', 'b'] } + { c: 1 }; o.c", {}),
+    ("local f(x) = x + 1, ys = std.map(f, [1, 2, 3]), zs = std.map(function(i) ys, ys); std.length(zs)", {}),
+    ("local a = std.makeArray(3, function(i) a), b = std.mapWithIndex(function(i, x) [a, b], a); std.length(b)", {}),
+    ("local o = { f(x, y=o):: [x, y], g: std.mapWithKey(function(k, v) o, { p: 1 }), h: std.filterMap(function(x) true, function(x) o, [1, 2]) }; std.length(o.h)", {}),
+    ("local o = { local me = self, assert std.isObject(me), a+: [o], b: [i for i in [o, me]] }; std.length(({ a: [] } + o).b)", {}),
+    ("local a = [a, [a for i in [1, 2]], { x: a }, function() a]; std.length(a)", {}),
+    ("local o = { a: 1 } + { a+: 2, s: super.a, t:: o }; [o.a, std.objectFieldsAll(o)]", {}),
+    ("local mk(n) = { n: n, next:: if n == 0 then null else mk(n - 1), back:: self }; std.length(std.toString(mk(5)))", {}),
     ("local big = std.map(function(i) { a: i, b: [self.a, i], c: { d: $.a } }, std.range(1, 1500)); std.foldl(function(acc, o) acc + o.b[0] + o.c.d, big, 0)", {"heavy": 1}),
 ]
 
